@@ -861,6 +861,21 @@ class FrameGen(Gen):
         return [{"set": "frame_len"}, {"set": "tfdz", "tfdz": ""}, {"set": "tfdz", "tfdz": hx(rbytes(rng, 3))},
                 {"set": "tfdz", "tfdz": fill(self.mx(a) + 1)}, {"set": "tfdz", "tfdz": hx(rbytes(rng, 300))}]
 
+    def len_boundary(self, a):
+        """data zones that make the whole frame exactly 65535..65538 octets long: the 16-bit frame length field
+        holds len() - 1, so 65536 octets is the largest frame whose length can be set"""
+        if a["hdr"]["kind"] != "primary":
+            return []
+        hl = 1 if a["tfdf"]["fhp"] is None else 3
+        fixed = 7 + a["hdr"]["vcf_len"] + hl + sum(len(a[k]) // 2 for k in ("iz", "ocf", "fecf") if a[k] is not None)
+        S = {"set": "frame_len"}
+        seq = []
+        for total in (65536, 65537, 65535, 65538):
+            n = total - fixed
+            if 0 <= n <= self.mx(a):
+                seq += [{"set": "tfdz", "tfdz": fill(n, total & 0xFF)}, S]
+        return [seq] if seq else []
+
     def boundary(self, rng, a):
         M = self.mx(a)
         T = lambda n, b=0: {"set": "tfdz", "tfdz": fill(n, b)}  # noqa
@@ -1047,6 +1062,15 @@ class C11(Prop):
                     bseqs = rng.sample(bseqs, 2)        # quick: two of the boundary sequences (the seed decides which)
                 for steps in bseqs:
                     yield seq_case(name, a, steps, "boundary")
+            if name == "frame":
+                # the frame length field at its limit, with trailer parts (insert zone / OCF / FECF) present so that the
+                # data zone bound alone does not already stop the frame from growing past 65536 octets
+                for i in range(6 if thorough else 2):
+                    a = g.init(rng, truncated=False, ocf=bool(i % 2))
+                    if a["iz"] is None and a["fecf"] is None and a["ocf"] is None:
+                        a["fecf"] = "a1b2"
+                    for steps in g.len_boundary(a):
+                        yield seq_case(name, a, steps, "frame-len-boundary")
             # 2. exhaustive short sequences over a small pool
             for fx in fixes:
                 a = g.init(rng, **fx)
